@@ -31,6 +31,7 @@ SIZE = 'frame_buffer::FrameKind::parse_size(%s)' % CHUNK
 def run(ctx):
     _run_main7(ctx)
     _round7(ctx)
+    _round8(ctx)
 
 
 def _run_main7(ctx):
@@ -160,3 +161,10 @@ def _round7(ctx):
     with ctx.rule('R06.7', 'a malformed frame is reported as MalformedFrame at every point of the connection, and inbound frames are read while output is pending (shared with C16, C01)', floor=5) as r:
         A.include(ctx, r, 'c16', 'R16.2', pick=('other-errors-unchanged', 'socket-closed-after-StartOk'))
         A.include(ctx, r, 'c01', 'R01.6')
+
+
+def _round8(ctx):
+    """Rules that are necessary conditions of this property too (found by seeding round 8)."""
+    from rules import arms as A
+    with ctx.rule('R06.8', "[CloseOk][EOF] means the same however it is segmented: end of stream after the client's close completed is not an error (shared with C08)", floor=1) as r:
+        A.include(ctx, r, 'c08', 'R08.6', pick=('eof-after-clientclosed-is-ok',))
